@@ -361,6 +361,9 @@ def call_iso(cid, P, ism, symmetry, alias=False, ctx=''):
             chk.count('constraints=%s' % (len(cons) if len(cons) <= 2 else '3-6' if len(cons) <= 6 else '>6'))
             if any(lo >= hi for lo, hi in cons):
                 chk.count('constraint_not_low_lt_high')
+            # hypothesis antisymB of theorem ismags_find_exact on the constraints the real code made
+            cset = {tuple(c) for c in cons}
+            chk.count('hyp_antisymB=%s' % all((hi, lo) not in cset for lo, hi in cset))
     # the TRANSCRIPTION of find_isomorphisms/_map_nodes (C06_Ismags.lean) with the constraints the real
     # call used must yield the same mappings with the same multiplicities (sorted: the yield order depends
     # on CPython's set iteration order)
